@@ -151,6 +151,8 @@ def impl(case):
                 results.append(['err'])
         elif kind == 'filter':
             mask = [s in op[2] for s in species[i] for _ in range(3)]
+            if not any(mask):
+                continue          # selecting no atom at all is outside the property (zero-size arrays downstream)
             mops.append(['OFilter', i, mask])
             nt = t.filter(op[2])
             new(nt, [s for s in species[i] if s in op[2]], _arr(nt.coords))
